@@ -1,6 +1,8 @@
 """C08 - any server behaviour ends in a return or ftp_exception: no hang, crash or UB (control-reader part)."""
 from rng import hx, hexlist
 from props.ctlgen import *
+import props.client_props as CP
+import props.c11 as C11
 
 DIALOGUES = [
     b"220 hi\r\n331 pw\r\n230 ok\r\n",
@@ -52,10 +54,25 @@ def gen(ctx):
             s = s[:rng.below(len(s) + 1)]
         yield "recv %d %s %s" % (rng.range(1, 6), rng.choice(["eof", "err"]), hexlist(random_cuts(rng, s)))
 
+def gen_client(ctx):
+    """client-level fault histories (peer close / reset during data transfer, failing sink / source, unreachable passive
+    endpoints, garbage replies, 421) - only the outcome class is judged here"""
+    for l in CP.gen_c17(ctx):
+        yield l.replace("prop=C17", "prop=C08")
+    for l in CP.gen_c13(ctx):
+        yield l.replace("prop=C13", "prop=C08")
+
+def gen_e2e(ctx):
+    """TLS handshake failures, refused AUTH/PBSZ/PROT, truncated TLS data streams over real sockets"""
+    for l in C11.gen(ctx):
+        yield l.replace("prop=C11", "prop=C08")
+
 PROP = {
     "id": "C08",
     "stages": [{"name": "ctl", "target": "h_ctl", "gen": gen},
-               {"name": "ctl-asan", "target": "h_ctl", "sanitize": True, "gen": gen}],
+               {"name": "ctl-asan", "target": "h_ctl", "sanitize": True, "gen": gen},
+               {"name": "client", "target": "h_client", "gen": gen_client, "shard": 12},
+               {"name": "e2e", "target": "h_e2e", "gen": gen_e2e, "shard": 6}],
     "trivial_tags": [],
     "rule": "real control_connection::recv over the in-memory transport on arbitrary / mutated / truncated server output with end-of-file or "
             "an I/O error at every position, every segmentation of short hostile streams, over-long lines; each outcome classified "
